@@ -121,7 +121,8 @@ DEFOP(twinprint) {
     struct Del { cJSON *c; ~Del() { cJSON_Delete(c); } } dl{twin};
     for (MVal *k : o->kids) {
         cJSON *d = cJSON_Duplicate(k->c, 1);
-        if (!d || !cJSON_AddItemToObject(twin, k->key.c_str(), d)) { cJSON_Delete(d); w.noop(st, "alloc"); return; }
+        bool added = d && (k->constkey && k->c->string ? cJSON_AddItemToObjectCS(twin, k->c->string, d) : cJSON_AddItemToObject(twin, k->key.c_str(), d));
+        if (!added) { cJSON_Delete(d); w.noop(st, "alloc"); return; }
     }
     for (int fmt = 0; fmt < 2; fmt++) {
         char *a = fmt ? cJSON_Print(o->c) : cJSON_PrintUnformatted(o->c);
